@@ -2,6 +2,7 @@
 From Coq Require Import ZArith NArith List Bool Lia Arith.
 Import ListNotations.
 From Verif Require Import Lib.Corr Gen.C29 Model.C29.
+From Verif Require Model.C31 Proofs.C31.
 
 (* ---- list-sets ---- *)
 Lemma sample_eqb_spec a b : sample_eqb a b = true <-> a = b.
@@ -111,7 +112,8 @@ Qed.
 Lemma set_marked_In st id i b' :
   In (i, b') (set_marked st id) ->
   exists b, In (i, b) st /\ m_sources b' = m_sources b /\ m_samples b' = m_samples b
-            /\ (i <> id -> b' = b).
+            /\ (i <> id -> b' = b)
+            /\ m_group b' = m_group b /\ m_mint b' = m_mint b /\ m_maxt b' = m_maxt b /\ m_level b' = m_level b.
 Proof.
   unfold set_marked. intros H. apply in_map_iff in H as [[j b] [Heq Hin]]. simpl in Heq.
   destruct (N.eqb j id) eqn:E; inversion Heq; subst.
@@ -162,11 +164,11 @@ Record inv (init : list (N * list sample)) (st : state) : Prop := {
               exists o ss, In (o, ss) init /\ In o (m_sources b) /\ In s ss
 }.
 
-Lemma inv_init init : NoDup (map fst init) -> inv init (init_state init).
+Lemma inv_init G init : NoDup (map fst init) -> inv init (init_state G init).
 Proof.
   intros Hnd. unfold init_state. split.
   - rewrite map_map. simpl. exact Hnd.
-  - intros o ss Hin. exists o, (mkmb [o] ss false). split; [|split; [reflexivity|left; reflexivity]].
+  - intros o ss Hin. exists o, (mkmb [o] ss false (og (ometa_of G o)) 1 (omint (ometa_of G o)) (omaxt (ometa_of G o))). split; [|split; [reflexivity|left; reflexivity]].
     apply in_map_iff. exists (o, ss). split; [reflexivity|exact Hin].
   - intros i b Hin o ss Ho Hs s Hss. apply in_map_iff in Hin as [[o' ss'] [Heq Hin]]. inversion Heq; subst.
     simpl in *. destruct Hs as [Hs|[]]. subst.
@@ -181,6 +183,7 @@ Proof.
   - (* a new block *)
     apply andb_true_iff in Hok as [Hfresh Hok].
     destruct (parents_of st (cb_parents b)) as [pbs|] eqn:Hp; [|discriminate].
+    apply andb_true_iff in Hok as [Hok _].
     apply andb_true_iff in Hok as [Hok _]. apply andb_true_iff in Hok as [Hok _].
     apply andb_true_iff in Hok as [Hok Hnd]. apply andb_true_iff in Hok as [Hok Hsm]. apply andb_true_iff in Hok as [_ Hsrc].
     pose proof (seteq_In N.eqb (fun a b => N.eqb_eq a b) _ _ Hsrc) as Esrc.
@@ -276,11 +279,13 @@ Opaque order_ok.
 
 Lemma crash_safe_case c : corr_ok c = true -> cover_all c = true -> served_all c = true.
 Proof.
-  destruct c as [v init s0 s1 steps q]. simpl. intros Hc Hcov.
+  destruct c as [v G init s0 s1 steps q|ex G init s0 s1 steps q]; [|reflexivity]. simpl. intros Hc Hcov.
+  apply andb_true_iff in Hc as [Hc _]. apply andb_true_iff in Hc as [Hc _]. apply andb_true_iff in Hc as [Hc _].
+  apply andb_true_iff in Hc as [Hc _].
   apply andb_true_iff in Hc as [Hc Hl]. apply andb_true_iff in Hc as [Hc _]. apply andb_true_iff in Hc as [_ Hnd].
   apply andb_true_iff in Hcov as [Hcov Hcs]. apply andb_true_iff in Hcov as [Hcov _].
   apply andb_true_iff in Hcov as [Hcov _]. apply andb_true_iff in Hcov as [H0 H1].
-  pose proof (inv_init init (nodupN_NoDup _ Hnd)) as Hi.
+  pose proof (inv_init G init (nodupN_NoDup _ Hnd)) as Hi.
   rewrite (served_from_cover init _ true s0 Hi H0), (served_from_cover init _ false s1 Hi H1). simpl.
   apply served_steps_from_cover; assumption.
 Qed.
@@ -289,9 +294,9 @@ Qed.
 
 (* at every crash point of every legal history, whatever covering selection the store
    gateway makes, every original sample is served and nothing else is *)
-Lemma crash_safe init hist k hide sel :
-  NoDup (map fst init) -> legal (init_state init) hist = true ->
-  let st := fold_left apply_hop (firstn k hist) (init_state init) in
+Lemma crash_safe G init hist k hide sel :
+  NoDup (map fst init) -> legal (init_state G init) hist = true ->
+  let st := fold_left apply_hop (firstn k hist) (init_state G init) in
   cover_ok st hide sel = true ->
   (forall o ss s, In (o, ss) init -> In s ss ->
      exists id b, In id sel /\ find st id = Some b /\ In s (m_samples b))
@@ -299,7 +304,7 @@ Lemma crash_safe init hist k hide sel :
      exists o ss, In (o, ss) init /\ In s ss).
 Proof.
   intros Hnd Hl st Hc.
-  pose proof (inv_prefix init hist _ k (inv_init init Hnd) Hl) as Hi. fold st in Hi.
+  pose proof (inv_prefix init hist _ k (inv_init G init Hnd) Hl) as Hi. fold st in Hi.
   pose proof (served_from_cover init st hide sel Hi Hc) as Hs.
   unfold served_ok in Hs. apply andb_true_iff in Hs as [Hs1 Hs2]. rewrite forallb_forall in Hs1, Hs2. split.
   - intros o ss s Hin Hss. specialize (Hs1 _ Hin). simpl in Hs1. rewrite forallb_forall in Hs1.
@@ -312,13 +317,13 @@ Proof.
 Qed.
 
 (* every block of every legal history holds exactly the samples of its source blocks *)
-Lemma merge_exact init hist k i b :
-  NoDup (map fst init) -> legal (init_state init) hist = true ->
-  In (i, b) (fold_left apply_hop (firstn k hist) (init_state init)) ->
+Lemma merge_exact G init hist k i b :
+  NoDup (map fst init) -> legal (init_state G init) hist = true ->
+  In (i, b) (fold_left apply_hop (firstn k hist) (init_state G init)) ->
   forall s, In s (m_samples b) <-> exists o ss, In (o, ss) init /\ In o (m_sources b) /\ In s ss.
 Proof.
   intros Hnd Hl Hin s.
-  destruct (inv_prefix init hist _ k (inv_init init Hnd) Hl) as [K Cov Sup Sub]. split.
+  destruct (inv_prefix init hist _ k (inv_init G init Hnd) Hl) as [K Cov Sup Sub]. split.
   - intros Hs. eapply Sub; eauto.
   - intros [o [ss [H1 [H2 H3]]]]. eapply Sup; eauto.
 Qed.
@@ -330,7 +335,7 @@ Definition lam2 (a c : list N) : Prop :=
 Definition laminar (st : state) : Prop :=
   forall i a j c, In (i, a) st -> In (j, c) st -> lam2 (m_sources a) (m_sources c).
 
-Lemma laminar_init init : laminar (init_state init).
+Lemma laminar_init G init : laminar (init_state G init).
 Proof.
   intros i a j c Hi Hj. unfold init_state in *.
   apply in_map_iff in Hi as [[o ss] [E1 _]]. apply in_map_iff in Hj as [[o' ss'] [E2 _]].
@@ -355,6 +360,7 @@ Proof.
   intros Hlam Hok. destruct o as [id b|id|id]; simpl in *.
   - apply andb_true_iff in Hok as [_ Hok].
     destruct (parents_of st (cb_parents b)) as [pbs|] eqn:Hp; [|discriminate].
+    apply andb_true_iff in Hok as [Hok _].
     apply andb_true_iff in Hok as [Hok _]. apply andb_true_iff in Hok as [Hok Hmax].
     apply andb_true_iff in Hok as [Hok _]. apply andb_true_iff in Hok as [Hok _]. apply andb_true_iff in Hok as [_ Hsrc].
     pose proof (seteq_In N.eqb (fun a b => N.eqb_eq a b) _ _ Hsrc) as Esrc.
@@ -434,6 +440,7 @@ Proof.
   intros Hn Hok. destruct o as [id b|id|id]; simpl in *.
   - apply andb_true_iff in Hok as [_ Hok].
     destruct (parents_of st (cb_parents b)) as [pbs|]; [|discriminate].
+    apply andb_true_iff in Hok as [Hok _].
     apply andb_true_iff in Hok as [Hok _]. apply andb_true_iff in Hok as [Hok _]. apply andb_true_iff in Hok as [_ Hnd].
     intros i b' Hin. apply in_app_or in Hin as [Hin|[Hin|[]]]; [eapply Hn; eauto|].
     inversion Hin; subst. simpl. apply nodupS_NoDup. exact Hnd.
@@ -450,10 +457,10 @@ Qed.
 
 (* at every prefix of a legal history over original blocks that share no sample, with a
    non-nested selection: a sample is in at most one selected block, once *)
-Lemma served_once init hist k sel :
+Lemma served_once G init hist k sel :
   NoDup (map fst init) -> (forall o ss, In (o, ss) init -> NoDup ss) -> orig_disjoint init ->
-  legal (init_state init) hist = true ->
-  let st := fold_left apply_hop (firstn k hist) (init_state init) in
+  legal (init_state G init) hist = true ->
+  let st := fold_left apply_hop (firstn k hist) (init_state G init) in
   antichain_ok st sel = true ->
   (forall i j a c s, In i sel -> In j sel -> find st i = Some a -> find st j = Some c ->
      In s (m_samples a) -> In s (m_samples c) -> i = j)
@@ -559,25 +566,471 @@ Qed.
 
 Lemma once_case c :
   corr_ok c = true -> cover_all c = true ->
-  match c with CHist _ init _ _ _ _ => orig_disjoint_b init = true end ->
+  match c with CHist _ _ init _ _ _ _ => orig_disjoint_b init = true | CHistD _ _ _ _ _ _ _ => True end ->
   once_ok c = true.
 Proof.
-  destruct c as [v init s0 s1 steps q]. simpl. intros Hc Hcov Hdis.
+  destruct c as [v G init s0 s1 steps q|ex G init s0 s1 steps q]; [|reflexivity]. simpl. intros Hc Hcov Hdis.
   destruct q; [|reflexivity].
+  apply andb_true_iff in Hc as [Hc _]. apply andb_true_iff in Hc as [Hc _]. apply andb_true_iff in Hc as [Hc _].
+  apply andb_true_iff in Hc as [Hc _].
   apply andb_true_iff in Hc as [Hc Hl]. apply andb_true_iff in Hc as [Hc Hsn]. apply andb_true_iff in Hc as [_ Hnd].
   apply andb_true_iff in Hcov as [Hcov Hcs]. apply andb_true_iff in Hcov as [Hcov A1].
   apply andb_true_iff in Hcov as [Hcov A0]. apply andb_true_iff in Hcov as [C0 C1].
   pose proof (nodupN_NoDup _ Hnd) as Hnd'.
-  pose proof (inv_init init Hnd') as Hi.
-  assert (Hb : blocks_nodup (init_state init)).
+  pose proof (inv_init G init Hnd') as Hi.
+  assert (Hb : blocks_nodup (init_state G init)).
   { intros j b Hin. unfold init_state in Hin. apply in_map_iff in Hin as [[o ss] [E Hin]].
     simpl in E. inversion E as [[Ej Eb]]. simpl.
     rewrite forallb_forall in Hsn. apply nodupS_NoDup. apply (Hsn (o, ss) Hin). }
-  pose proof (last_view_props init steps _ s0 s1 Hi (laminar_init init) Hb Hl C0 C1 A0 A1 Hcs) as H.
-  destruct (last_view (init_state init) s0 s1 steps) as [[st f0] f1].
+  pose proof (last_view_props init steps _ s0 s1 Hi (laminar_init G init) Hb Hl C0 C1 A0 A1 Hcs) as H.
+  destruct (last_view (init_state G init) s0 s1 steps) as [[st f0] f1].
   destruct H as [Hi' [Hl' [Hb' [D0 [D1 [E0 E1]]]]]].
   pose proof (orig_disjoint_b_spec init Hnd' Hdis) as Hod.
   apply andb_true_iff. split; apply (nodup_complete sample_eqb sample_eqb_spec).
   - apply (served_list_NoDup init st f0 Hi' Hl' Hb' Hod E0). apply (cover_found st true f0 (inv_keys _ _ Hi') D0).
   - apply (served_list_NoDup init st f1 Hi' Hl' Hb' Hod E1). apply (cover_found st false f1 (inv_keys _ _ Hi') D1).
+Qed.
+
+(* ================= the store gateway's filter chain (C31 model) ================= *)
+From Coq Require Import FinFun.
+
+Lemma NoDup_filter_keys (st : state) f : NoDup (map fst st) -> NoDup (map fst (filter f st)).
+Proof.
+  induction st as [|x r IH]; simpl; intros H; [constructor|].
+  inversion H as [|? ? Hni Hnd]; subst. destruct (f x); simpl; [|apply IH; exact Hnd].
+  constructor; [|apply IH; exact Hnd]. intros Hin. apply Hni.
+  apply in_map_iff in Hin as [y [Ey Hy]]. apply filter_In in Hy as [Hy _]. rewrite <- Ey. apply in_map. exact Hy.
+Qed.
+
+Lemma to31_ids (e : state) : map C31.bid (map to31 e) = map Z.of_N (map fst e).
+Proof. rewrite !map_map. apply map_ext. intros [i b]. reflexivity. Qed.
+
+Lemma incl_of_N a c : incl (map Z.of_N a) (map Z.of_N c) -> forall x, In x a -> In x c.
+Proof.
+  intros H x Hx. assert (Hin : In (Z.of_N x) (map Z.of_N c)) by (apply H; apply in_map; exact Hx).
+  apply in_map_iff in Hin as [y [Ey Hy]]. apply N2Z.inj in Ey. subst. exact Hy.
+Qed.
+
+Lemma sg_select_cover st hide : NoDup (map fst st) -> cover_ok st hide (sg_select st hide) = true.
+Proof.
+  intros K. unfold cover_ok, sg_select.
+  set (e := eligible hide st). set (l := map to31 e).
+  assert (Ke : NoDup (map fst e)) by (apply NoDup_filter_keys; exact K).
+  assert (Kl : NoDup (map C31.bid l)).
+  { unfold l. rewrite to31_ids. apply Injective_map_NoDup; [intros a b; apply N2Z.inj|exact Ke]. }
+  assert (He : forall p, In p e -> In p st) by (intros p Hp; unfold e, eligible in Hp; apply filter_In in Hp; tauto).
+  apply andb_true_iff. split.
+  - apply forallb_forall. intros id Hid. apply memN_In.
+    apply in_map_iff in Hid as [p [Ep Hp]]. apply filter_In in Hp as [Hp _]. subst id. apply in_map. exact Hp.
+  - apply forallb_forall. intros [i b] Hp.
+    assert (Hsel : forall q, In q e -> C31.hidden l (to31 q) = false ->
+              In (fst q) (map fst (filter (fun p => negb (C31.hidden l (to31 p))) e))).
+    { intros q Hq Hh. apply in_map. apply filter_In. split; [exact Hq|]. rewrite Hh. reflexivity. }
+    destruct (C31.hidden l (to31 (i, b))) eqn:Hh.
+    + destruct (Proofs.C31.hidden_covered l (to31 (i, b)) Kl (in_map to31 e _ Hp) Hh) as [q31 [Hq [_ [Hk Hincl]]]].
+      unfold l in Hq. apply in_map_iff in Hq as [[j c] [Eq Hq]]. subst q31.
+      apply existsb_exists. exists j. split; [apply (Hsel (j, c) Hq Hk)|].
+      rewrite (In_find st j c K (He _ Hq)). simpl. apply subN_In. apply incl_of_N. exact Hincl.
+    + apply existsb_exists. exists i. split; [apply (Hsel (i, b) Hp Hh)|].
+      rewrite (In_find st i b K (He _ Hp)). simpl. apply subN_In. auto.
+Qed.
+
+(* served_ok looks at the selection only through membership *)
+Lemma served_ok_seteq init st a c : sel_eq a c = true -> served_ok init st c = true -> served_ok init st a = true.
+Proof.
+  intros He H. pose proof (seteq_In N.eqb (fun x y => N.eqb_eq x y) _ _ He) as E.
+  unfold served_ok in *. apply andb_true_iff in H as [H1 H2]. apply andb_true_iff. split.
+  - rewrite forallb_forall in H1. apply forallb_forall. intros p Hp. specialize (H1 p Hp).
+    rewrite forallb_forall in H1. apply forallb_forall. intros s Hs. specialize (H1 s Hs).
+    unfold served_by in *. apply existsb_exists in H1 as [id [Hid Hm]]. apply existsb_exists. exists id.
+    split; [apply E; exact Hid|exact Hm].
+  - rewrite forallb_forall in H2. apply forallb_forall. intros id Hid. apply H2. apply E. exact Hid.
+Qed.
+
+Lemma served_by_filter init st hide : inv init st -> served_ok init st (sg_select st hide) = true.
+Proof.
+  intros Hi. apply (served_from_cover init st hide); [exact Hi|]. apply sg_select_cover. apply (inv_keys _ _ Hi).
+Qed.
+
+Lemma served_steps_from_sel init : forall steps st,
+  inv init st -> legal st (map (fun s => fst (fst s)) steps) = true ->
+  sel_steps st steps = true -> served_steps init st steps = true.
+Proof.
+  induction steps as [|[[o s0] s1] r IH]; intros st Hi Hl Hs; simpl in *; [reflexivity|].
+  apply andb_true_iff in Hl as [Hok Hl]. apply andb_true_iff in Hs as [Hs Hsr]. apply andb_true_iff in Hs as [E0 E1].
+  assert (Hi' : inv init (apply_hop st o)) by (apply inv_step; assumption).
+  rewrite (served_ok_seteq init _ _ _ E0 (served_by_filter init _ true Hi')).
+  rewrite (served_ok_seteq init _ _ _ E1 (served_by_filter init _ false Hi')). simpl.
+  apply IH; assumption.
+Qed.
+
+Lemma corr_served c : corr_ok c = true -> served_all c = true.
+Proof.
+  destruct c as [v G init s0 s1 steps q|ex G init s0 s1 steps q]; [|reflexivity]. simpl. intros Hc.
+  apply andb_true_iff in Hc as [Hc Hss]. apply andb_true_iff in Hc as [Hc E1]. apply andb_true_iff in Hc as [Hc E0].
+  apply andb_true_iff in Hc as [Hc _].
+  apply andb_true_iff in Hc as [Hc Hl]. apply andb_true_iff in Hc as [Hc _]. apply andb_true_iff in Hc as [_ Hnd].
+  pose proof (inv_init G init (nodupN_NoDup _ Hnd)) as Hi.
+  rewrite (served_ok_seteq init _ _ _ E0 (served_by_filter init _ true Hi)).
+  rewrite (served_ok_seteq init _ _ _ E1 (served_by_filter init _ false Hi)). simpl.
+  apply served_steps_from_sel; assumption.
+Qed.
+
+(* at every crash point of every legal history, what the store gateway's filter chain selects
+   (either treatment of deletion marks) serves every original sample and nothing else *)
+Lemma crash_safe_filter G init hist k hide :
+  NoDup (map fst init) -> legal (init_state G init) hist = true ->
+  let st := fold_left apply_hop (firstn k hist) (init_state G init) in
+  let sel := sg_select st hide in
+  (forall o ss s, In (o, ss) init -> In s ss ->
+     exists id b, In id sel /\ find st id = Some b /\ In s (m_samples b))
+  /\ (forall id b s, In id sel -> find st id = Some b -> In s (m_samples b) ->
+     exists o ss, In (o, ss) init /\ In s ss).
+Proof.
+  intros Hnd Hl st sel. apply (crash_safe G init hist k hide (sg_select st hide) Hnd Hl).
+  apply sg_select_cover.
+  apply (inv_keys init). apply inv_prefix; [apply inv_init; exact Hnd|exact Hl].
+Qed.
+
+(* ================= exactly once, also for overlapping inputs ================= *)
+Definition grp_inv (G : list (N * ometa)) (st : state) : Prop :=
+  forall i b o, In (i, b) st -> In o (m_sources b) -> og (ometa_of G o) = m_group b.
+
+Definition rng_inv (st : state) : Prop :=
+  forall i b s, In (i, b) st -> In s (m_samples b) -> in_range (m_mint b) (m_maxt b) s = true.
+
+Lemma in_range_mono a b a' b' s : (a' <= a)%Z -> (b <= b')%Z -> in_range a b s = true -> in_range a' b' s = true.
+Proof.
+  unfold in_range. rewrite !andb_true_iff, !Z.leb_le, !Z.ltb_lt. lia.
+Qed.
+
+Lemma meta_step G st o :
+  grp_inv G st /\ rng_inv st -> hop_ok st o = true -> grp_inv G (apply_hop st o) /\ rng_inv (apply_hop st o).
+Proof.
+  intros [Hg Hr] Hok. destruct o as [id b|id|id]; simpl in *.
+  - apply andb_true_iff in Hok as [_ Hok].
+    destruct (parents_of st (cb_parents b)) as [pbs|] eqn:Hp; [|discriminate].
+    apply andb_true_iff in Hok as [Hok Hmeta].
+    apply andb_true_iff in Hok as [Hok _]. apply andb_true_iff in Hok as [Hok _].
+    apply andb_true_iff in Hok as [Hok _]. apply andb_true_iff in Hok as [Hok Hsm]. apply andb_true_iff in Hok as [_ Hsrc].
+    pose proof (seteq_In N.eqb (fun a b => N.eqb_eq a b) _ _ Hsrc) as Esrc.
+    pose proof (seteq_In sample_eqb sample_eqb_spec _ _ Hsm) as Esm.
+    rewrite forallb_forall in Hmeta. split.
+    + intros i b' o Hin Ho. apply in_app_or in Hin as [Hin|[Hin|[]]]; [eapply Hg; eauto|].
+      inversion Hin; subst. simpl in *. apply Esrc in Ho. apply in_concat in Ho as [l [Hl Hol]].
+      apply in_map_iff in Hl as [pb [El Hpb]]. subst l. destruct (parents_In st _ _ Hp pb Hpb) as [p Hpin].
+      rewrite (Hg p pb o Hpin Hol). specialize (Hmeta pb Hpb).
+      apply andb_true_iff in Hmeta as [Hm _]. apply andb_true_iff in Hm as [Hm _]. apply N.eqb_eq in Hm. exact Hm.
+    + intros i b' s Hin Hs. apply in_app_or in Hin as [Hin|[Hin|[]]]; [eapply Hr; eauto|].
+      inversion Hin; subst. simpl in *. apply Esm in Hs. apply in_concat in Hs as [l [Hl Hsl]].
+      apply in_map_iff in Hl as [pb [El Hpb]]. subst l. destruct (parents_In st _ _ Hp pb Hpb) as [p Hpin].
+      specialize (Hmeta pb Hpb). apply andb_true_iff in Hmeta as [Hm H2]. apply andb_true_iff in Hm as [_ H1].
+      apply Z.leb_le in H1, H2. eapply in_range_mono; [exact H1|exact H2|]. eapply Hr; eauto.
+  - split.
+    + intros i b' o Hin Ho. apply set_marked_In in Hin as [b0 [Hin [E1 [_ [_ [E3 _]]]]]].
+      rewrite E3. rewrite E1 in Ho. eapply Hg; eauto.
+    + intros i b' s Hin Hs. apply set_marked_In in Hin as [b0 [Hin [_ [E2 [_ [_ [E4 [E5 _]]]]]]]].
+      rewrite E4, E5. rewrite E2 in Hs. eapply Hr; eauto.
+  - split.
+    + intros i b' o Hin. apply remove_In in Hin as [Hin _]. eapply Hg; eauto.
+    + intros i b' s Hin. apply remove_In in Hin as [Hin _]. eapply Hr; eauto.
+Qed.
+
+Lemma meta_prefix G : forall hist st k,
+  grp_inv G st /\ rng_inv st -> legal st hist = true ->
+  grp_inv G (fold_left apply_hop (firstn k hist) st) /\ rng_inv (fold_left apply_hop (firstn k hist) st).
+Proof.
+  induction hist as [|o r IH]; intros st k Hi Hl; destruct k; simpl; try exact Hi.
+  simpl in Hl. apply andb_true_iff in Hl as [H1 H2]. apply IH; [apply meta_step; assumption|exact H2].
+Qed.
+
+Definition init_in_range_b (G : list (N * ometa)) (init : list (N * list sample)) : bool :=
+  forallb (fun p => forallb (in_range (omint (ometa_of G (fst p))) (omaxt (ometa_of G (fst p)))) (snd p)) init.
+
+Lemma meta_init G init : init_in_range_b G init = true -> grp_inv G (init_state G init) /\ rng_inv (init_state G init).
+Proof.
+  intros Hr. unfold init_in_range_b in Hr. rewrite forallb_forall in Hr. unfold init_state. split.
+  - intros i b o Hin Ho. apply in_map_iff in Hin as [[o' ss] [E Hin]]. simpl in E. inversion E; subst. simpl in *.
+    destruct Ho as [Ho|[]]. subst. reflexivity.
+  - intros i b s Hin Hs. apply in_map_iff in Hin as [[o' ss] [E Hin]]. simpl in E. inversion E; subst. simpl in *.
+    specialize (Hr (i, ss) Hin). simpl in Hr. rewrite forallb_forall in Hr. apply Hr. exact Hs.
+Qed.
+
+Definition groups_disjoint (G : list (N * ometa)) (init : list (N * list sample)) : Prop :=
+  forall o ss o' ss' s, In (o, ss) init -> In (o', ss') init ->
+    og (ometa_of G o) <> og (ometa_of G o') -> In s ss -> In s ss' -> False.
+
+Lemma groups_disjoint_b_spec G init : groups_disjoint_b G init = true -> groups_disjoint G init.
+Proof.
+  unfold groups_disjoint_b. rewrite forallb_forall. intros H o ss o' ss' s H1 H2 Hne S1 S2.
+  specialize (H (o, ss) H1). rewrite forallb_forall in H. specialize (H (o', ss') H2). simpl in H.
+  apply orb_true_iff in H as [H|H]; [apply N.eqb_eq in H; contradiction|].
+  unfold disjoint in H. rewrite forallb_forall in H. specialize (H s S1). apply negb_true_iff in H.
+  apply memS_In in S2. unfold memS in S2. congruence.
+Qed.
+
+(* no two selected blocks of one compaction group overlap in time: a sample is in at most one of them *)
+Lemma quiet_once_state G init st sel :
+  inv init st -> grp_inv G st -> rng_inv st -> groups_disjoint G init -> quiet_ok st sel = true ->
+  forall i j a c s, In i sel -> In j sel -> find st i = Some a -> find st j = Some c ->
+    In s (m_samples a) -> In s (m_samples c) -> i = j.
+Proof.
+  intros [K Cov Sup Sub] Hg Hr Hgd Hq i j a c s Hi Hj Ha Hc Sa Sc.
+  destruct (N.eq_dec i j) as [E|E]; [exact E|exfalso].
+  unfold quiet_ok in Hq. apply andb_true_iff in Hq as [_ Hq]. rewrite forallb_forall in Hq.
+  specialize (Hq i Hi). rewrite forallb_forall in Hq. specialize (Hq j Hj).
+  rewrite Ha, Hc in Hq. apply N.eqb_neq in E. rewrite E in Hq. simpl in Hq.
+  pose proof (find_In _ _ _ Ha) as Hia. pose proof (find_In _ _ _ Hc) as Hjc.
+  apply orb_true_iff in Hq as [Hq|Hq].
+  - apply negb_true_iff in Hq. apply N.eqb_neq in Hq.
+    destruct (Sub i a Hia s Sa) as [o [ss [O1 [O2 O3]]]].
+    destruct (Sub j c Hjc s Sc) as [o' [ss' [P1 [P2 P3]]]].
+    apply (Hgd o ss o' ss' s O1 P1); [|exact O3|exact P3].
+    rewrite (Hg i a o Hia O2), (Hg j c o' Hjc P2). exact Hq.
+  - apply negb_true_iff in Hq. pose proof (Hr i a s Hia Sa) as R1. pose proof (Hr j c s Hjc Sc) as R2.
+    unfold in_range in R1, R2. unfold ranges_meet in Hq.
+    apply andb_true_iff in R1 as [A1 A2]. apply andb_true_iff in R2 as [B1 B2].
+    apply Z.leb_le in A1, B1. apply Z.ltb_lt in A2, B2.
+    assert (Z.ltb (m_mint a) (m_maxt c) = true) by (apply Z.ltb_lt; lia).
+    assert (Z.ltb (m_mint c) (m_maxt a) = true) by (apply Z.ltb_lt; lia).
+    rewrite H, H0 in Hq. discriminate.
+Qed.
+
+Lemma quiet_once G init hist k sel :
+  NoDup (map fst init) -> (forall o ss, In (o, ss) init -> NoDup ss) ->
+  init_in_range_b G init = true -> groups_disjoint_b G init = true ->
+  legal (init_state G init) hist = true ->
+  let st := fold_left apply_hop (firstn k hist) (init_state G init) in
+  quiet_ok st sel = true ->
+  (forall i j a c s, In i sel -> In j sel -> find st i = Some a -> find st j = Some c ->
+     In s (m_samples a) -> In s (m_samples c) -> i = j)
+  /\ (forall i a, find st i = Some a -> NoDup (m_samples a)).
+Proof.
+  intros Hnd Hss Hrg Hgd Hl st Hq.
+  destruct (meta_prefix G hist _ k (meta_init G init Hrg) Hl) as [Hg Hr].
+  split.
+  - apply (quiet_once_state G init st sel); try assumption.
+    + apply inv_prefix; [apply inv_init; exact Hnd|exact Hl].
+    + apply groups_disjoint_b_spec. exact Hgd.
+  - intros i a Hf. apply find_In in Hf.
+    assert (Hb : blocks_nodup st).
+    { apply blocks_nodup_prefix; [|exact Hl]. intros j b Hin. unfold init_state in Hin.
+      apply in_map_iff in Hin as [[o ss] [E Hin]]. simpl in E. inversion E as [[Ej Eb]]. simpl. eapply Hss; eauto. }
+    eapply Hb; eauto.
+Qed.
+
+(* on the case: quiescent final selections without time overlap inside a group are duplicate-free *)
+Lemma last_view_fold : forall steps st s0 s1,
+  fst (fst (last_view st s0 s1 steps)) = fold_left apply_hop (map (fun s => fst (fst s)) steps) st.
+Proof.
+  induction steps as [|[[o a] b] r IH]; intros st s0 s1; simpl; [reflexivity|]. apply IH.
+Qed.
+
+Lemma served_list_NoDup_quiet G init st sel :
+  inv init st -> grp_inv G st -> rng_inv st -> blocks_nodup st -> groups_disjoint G init ->
+  quiet_ok st sel = true -> NoDup (served_list st sel).
+Proof.
+  intros Hi Hg Hr Hbn Hgd Hq. unfold served_list. apply NoDup_concat_map.
+  - unfold quiet_ok in Hq. apply andb_true_iff in Hq as [Hn _]. apply nodupN_NoDup. exact Hn.
+  - intros id Hid. destruct (find st id) as [b|] eqn:Hf; [|constructor]. eapply Hbn. apply find_In. exact Hf.
+  - intros i j s Hx Hy Sa Sc.
+    destruct (find st i) as [a|] eqn:Ha; [|contradiction]. destruct (find st j) as [c|] eqn:Hc; [|contradiction].
+    eapply (quiet_once_state G init st sel); eauto.
+Qed.
+
+Lemma once_case_quiet c :
+  corr_ok c = true -> quiet_all c = true ->
+  match c with CHist _ G init _ _ _ _ => groups_disjoint_b G init = true | CHistD _ _ _ _ _ _ _ => True end ->
+  once_ok c = true.
+Proof.
+  destruct c as [v G init s0 s1 steps q|ex G init s0 s1 steps q]; [|reflexivity]. simpl. intros Hc Hq Hgd.
+  destruct q; [|reflexivity].
+  apply andb_true_iff in Hc as [Hc _]. apply andb_true_iff in Hc as [Hc _]. apply andb_true_iff in Hc as [Hc _].
+  apply andb_true_iff in Hc as [Hc Hrg].
+  apply andb_true_iff in Hc as [Hc Hl]. apply andb_true_iff in Hc as [Hc Hsn]. apply andb_true_iff in Hc as [_ Hnd].
+  pose proof (nodupN_NoDup _ Hnd) as Hnd'.
+  set (hist := map (fun s : step => fst (fst s)) steps) in *.
+  pose proof (last_view_fold steps (init_state G init) s0 s1) as Hlv. fold hist in Hlv.
+  destruct (last_view (init_state G init) s0 s1 steps) as [[st f0] f1]. simpl in Hlv.
+  assert (Hfull : st = fold_left apply_hop (firstn (length hist) hist) (init_state G init)) by (rewrite firstn_all; exact Hlv).
+  assert (Hi : inv init st) by (rewrite Hfull; apply inv_prefix; [apply inv_init; exact Hnd'|exact Hl]).
+  destruct (meta_prefix G hist _ (length hist) (meta_init G init Hrg) Hl) as [Hg Hr]. rewrite <- Hfull in Hg, Hr.
+  assert (Hb : blocks_nodup st).
+  { rewrite Hfull. apply blocks_nodup_prefix; [|exact Hl]. intros j b Hin. unfold init_state in Hin.
+    apply in_map_iff in Hin as [[o ss] [E Hin]]. simpl in E. inversion E as [[Ej Eb]]. simpl.
+    rewrite forallb_forall in Hsn. apply nodupS_NoDup. apply (Hsn (o, ss) Hin). }
+  apply andb_true_iff in Hq as [Q0 Q1].
+  pose proof (groups_disjoint_b_spec G init Hgd) as Hgd'.
+  apply andb_true_iff. split; apply (nodup_complete sample_eqb sample_eqb_spec).
+  - apply (served_list_NoDup_quiet G init st f0); assumption.
+  - apply (served_list_NoDup_quiet G init st f1); assumption.
+Qed.
+
+(* ================= replicated streams, deduplicating compaction ================= *)
+Record inv_dd (init : list (N * list sample)) (st : state) : Prop := {
+  dd_keys : NoDup (map fst st);
+  dd_cov : forall o ss, In (o, ss) init ->
+             exists i b, In (i, b) st /\ m_marked b = false /\ In o (m_sources b);
+  (* every series of every source block is still in the block ... *)
+  dd_ser : forall i b, In (i, b) st -> forall o ss, In (o, ss) init -> In o (m_sources b) ->
+             forall s, In s ss -> exists s', In s' (m_samples b) /\ series_of s' = series_of s;
+  (* ... and every sample of the block is a sample of a source block *)
+  dd_sub : forall i b, In (i, b) st -> forall s, In s (m_samples b) ->
+             exists o ss, In (o, ss) init /\ In o (m_sources b) /\ In s ss
+}.
+
+Lemma inv_dd_of_inv init st : inv init st -> inv_dd init st.
+Proof.
+  intros [K Cov Sup Sub]. split; try assumption.
+  intros i b Hin o ss Ho Hs s Hss. exists s. split; [eapply Sup; eauto|reflexivity].
+Qed.
+
+Lemma inv_dd_step init st o : inv_dd init st -> hop_ok_dd st o = true -> inv_dd init (apply_hop st o).
+Proof.
+  intros [K Cov Ser Sub] Hok. destruct o as [id b|id|id].
+  - simpl in Hok. apply andb_true_iff in Hok as [Hfresh Hok].
+    destruct (parents_of st (cb_parents b)) as [pbs|] eqn:Hp; [|discriminate].
+    apply andb_true_iff in Hok as [Hok Hnd]. apply andb_true_iff in Hok as [Hok Hser].
+    apply andb_true_iff in Hok as [Hok Hsub]. apply andb_true_iff in Hok as [_ Hsrc].
+    pose proof (seteq_In N.eqb (fun a b => N.eqb_eq a b) _ _ Hsrc) as Esrc.
+    pose proof (proj1 (subset_In sample_eqb sample_eqb_spec _ _) Hsub) as Esub.
+    rewrite forallb_forall in Hser.
+    assert (Hfr : ~ In id (map fst st)).
+    { apply find_None. unfold has in Hfresh. destruct (find st id); [discriminate|reflexivity]. }
+    simpl. split.
+    + rewrite map_app. simpl. apply NoDup_app_local; [exact K|constructor; [intros []|constructor]|].
+      intros x Hx [Hy|[]]. subst. contradiction.
+    + intros o ss Hin. destruct (Cov o ss Hin) as [i [b' [H1 [H2 H3]]]]. exists i, b'. split; [apply in_or_app; left; exact H1|auto].
+    + intros i b' Hin o ss Ho Hs s Hss. apply in_app_or in Hin as [Hin|[Hin|[]]]; [eapply Ser; eauto|].
+      inversion Hin; subst. simpl in *. apply Esrc in Hs.
+      apply in_concat in Hs as [l [Hl Hol]]. apply in_map_iff in Hl as [pb [Hl Hpb]]. subst l.
+      destruct (parents_In st _ _ Hp pb Hpb) as [p Hpin].
+      destruct (Ser p pb Hpin o ss Ho Hol s Hss) as [s1 [Hs1 E1]].
+      assert (Hc : In s1 (List.concat (map m_samples pbs))).
+      { apply in_concat. exists (m_samples pb). split; [apply in_map; exact Hpb|exact Hs1]. }
+      specialize (Hser s1 Hc). apply existsb_exists in Hser as [s2 [Hs2 E2]]. apply N.eqb_eq in E2.
+      exists s2. split; [exact Hs2|congruence].
+    + intros i b' Hin s Hs. apply in_app_or in Hin as [Hin|[Hin|[]]]; [eapply Sub; eauto|].
+      inversion Hin; subst. simpl in *. apply Esub in Hs.
+      apply in_concat in Hs as [l [Hl Hsl]]. apply in_map_iff in Hl as [pb [Hl Hpb]]. subst l.
+      destruct (parents_In st _ _ Hp pb Hpb) as [p Hpin].
+      destruct (Sub p pb Hpin s Hsl) as [o [ss [H1 [H2 H3]]]]. exists o, ss. split; [exact H1|]. split; [|exact H3].
+      apply Esrc. apply in_concat. exists (m_sources pb). split; [apply in_map; exact Hpb|exact H2].
+  - simpl in Hok. simpl. destruct (find st id) as [a|] eqn:Hf; [|discriminate].
+    apply existsb_exists in Hok as [[j c] [Hjin Hj]]. simpl in Hj.
+    apply andb_true_iff in Hj as [Hj Hsub]. apply andb_true_iff in Hj as [Hne Hun].
+    apply negb_true_iff in Hne, Hun. apply N.eqb_neq in Hne.
+    pose proof (proj1 (subN_In _ _) Hsub) as Hsub'.
+    split.
+    + rewrite set_marked_keys. exact K.
+    + intros o ss Hin. destruct (Cov o ss Hin) as [i [b' [H1 [H2 H3]]]].
+      destruct (N.eq_dec i id) as [E|E].
+      * subst i. exists j, c. split; [apply set_marked_other; assumption|]. split; [exact Hun|].
+        apply Hsub'. rewrite (In_find st id b' K H1) in Hf. inversion Hf; subst. exact H3.
+      * exists i, b'. split; [apply set_marked_other; assumption|auto].
+    + intros i b' Hin o ss Ho Hs s Hss. apply set_marked_In in Hin as [b0 [Hin [E1 [E2 _]]]].
+      rewrite E2. rewrite E1 in Hs. eapply Ser; eauto.
+    + intros i b' Hin s Hs. apply set_marked_In in Hin as [b0 [Hin [E1 [E2 _]]]].
+      rewrite E2 in Hs. rewrite E1. eapply Sub; eauto.
+  - simpl in Hok. simpl. destruct (find st id) as [a|] eqn:Hf; [|discriminate].
+    split.
+    + apply remove_keys. exact K.
+    + intros o ss Hin. destruct (Cov o ss Hin) as [i [b' [H1 [H2 H3]]]]. exists i, b'.
+      split; [|auto]. apply remove_In. split; [exact H1|]. intros E. subst i.
+      rewrite (In_find st id b' K H1) in Hf. inversion Hf; subst. congruence.
+    + intros i b' Hin. apply remove_In in Hin as [Hin _]. eapply Ser; eauto.
+    + intros i b' Hin. apply remove_In in Hin as [Hin _]. eapply Sub; eauto.
+Qed.
+
+Lemma inv_dd_prefix init : forall hist st k,
+  inv_dd init st -> legal_dd st hist = true -> inv_dd init (fold_left apply_hop (firstn k hist) st).
+Proof.
+  induction hist as [|o r IH]; intros st k Hi Hl; destruct k; simpl; try exact Hi.
+  simpl in Hl. apply andb_true_iff in Hl as [H1 H2]. apply IH; [apply inv_dd_step; assumption|exact H2].
+Qed.
+
+Lemma dd_from_cover init st hide sel :
+  inv_dd init st -> cover_ok st hide sel = true -> dd_ok init st sel = true.
+Proof.
+  intros [K Cov Ser Sub] Hc. unfold cover_ok in Hc. apply andb_true_iff in Hc as [Hc1 Hc2].
+  rewrite forallb_forall in Hc1, Hc2. unfold dd_ok. apply andb_true_iff. split.
+  - apply forallb_forall. intros [o ss] Hin. simpl. apply forallb_forall. intros s Hs.
+    destruct (Cov o ss Hin) as [i [b [H1 [H2 H3]]]].
+    assert (He : In (i, b) (eligible hide st)).
+    { unfold eligible. apply filter_In. split; [exact H1|]. simpl. rewrite H2, andb_false_r. reflexivity. }
+    specialize (Hc2 _ He). apply existsb_exists in Hc2 as [id [Hid Hsub]]. simpl in Hsub.
+    destruct (find st id) as [b'|] eqn:Hf; [|discriminate].
+    apply existsb_exists. exists id. split; [exact Hid|]. rewrite Hf.
+    destruct (Ser id b' (find_In _ _ _ Hf) o ss Hin (proj1 (subN_In _ _) Hsub o H3) s Hs) as [s' [Hs' E]].
+    apply existsb_exists. exists s'. split; [exact Hs'|]. apply N.eqb_eq. exact E.
+  - apply forallb_forall. intros id Hid. specialize (Hc1 _ Hid). apply memN_In in Hc1.
+    apply in_map_iff in Hc1 as [[i b] [Hi Hin]]. simpl in Hi. subst i.
+    unfold eligible in Hin. apply filter_In in Hin as [Hin _].
+    rewrite (In_find st id b K Hin). apply forallb_forall. intros s Hs.
+    destruct (Sub id b Hin s Hs) as [o [ss [H1 [H2 H3]]]].
+    apply existsb_exists. exists (o, ss). split; [exact H1|]. simpl. apply memS_In. exact H3.
+Qed.
+
+Lemma dd_ok_seteq init st a c : sel_eq a c = true -> dd_ok init st c = true -> dd_ok init st a = true.
+Proof.
+  intros He H. pose proof (seteq_In N.eqb (fun x y => N.eqb_eq x y) _ _ He) as E.
+  unfold dd_ok in *. apply andb_true_iff in H as [H1 H2]. apply andb_true_iff. split.
+  - rewrite forallb_forall in H1. apply forallb_forall. intros p Hp. specialize (H1 p Hp).
+    rewrite forallb_forall in H1. apply forallb_forall. intros s Hs. specialize (H1 s Hs).
+    apply existsb_exists in H1 as [id [Hid Hm]]. apply existsb_exists. exists id.
+    split; [apply E; exact Hid|exact Hm].
+  - rewrite forallb_forall in H2. apply forallb_forall. intros id Hid. apply H2. apply E. exact Hid.
+Qed.
+
+Lemma dd_by_filter init st hide : inv_dd init st -> dd_ok init st (sg_select st hide) = true.
+Proof.
+  intros Hi. apply (dd_from_cover init st hide); [exact Hi|]. apply sg_select_cover. apply (dd_keys _ _ Hi).
+Qed.
+
+Lemma dd_steps_from_sel init : forall steps st,
+  inv_dd init st -> legal_dd st (map (fun s => fst (fst s)) steps) = true ->
+  sel_steps st steps = true -> dd_steps init st steps = true.
+Proof.
+  induction steps as [|[[o s0] s1] r IH]; intros st Hi Hl Hs; simpl in *; [reflexivity|].
+  apply andb_true_iff in Hl as [Hok Hl]. apply andb_true_iff in Hs as [Hs Hsr]. apply andb_true_iff in Hs as [E0 E1].
+  assert (Hi' : inv_dd init (apply_hop st o)) by (apply inv_dd_step; assumption).
+  rewrite (dd_ok_seteq init _ _ _ E0 (dd_by_filter init _ true Hi')).
+  rewrite (dd_ok_seteq init _ _ _ E1 (dd_by_filter init _ false Hi')). simpl.
+  apply IH; assumption.
+Qed.
+
+Lemma corr_dd c : corr_ok c = true -> dd_all c = true.
+Proof.
+  destruct c as [v G init s0 s1 steps q|ex G init s0 s1 steps q]; [reflexivity|]. simpl. intros Hc.
+  apply andb_true_iff in Hc as [Hc Hss]. apply andb_true_iff in Hc as [Hc E1]. apply andb_true_iff in Hc as [Hc E0].
+  apply andb_true_iff in Hc as [Hc Hl]. apply andb_true_iff in Hc as [Hc _]. apply andb_true_iff in Hc as [_ Hnd].
+  pose proof (inv_dd_of_inv init _ (inv_init G init (nodupN_NoDup _ Hnd))) as Hi.
+  rewrite (dd_ok_seteq init _ _ _ E0 (dd_by_filter init _ true Hi)).
+  rewrite (dd_ok_seteq init _ _ _ E1 (dd_by_filter init _ false Hi)). simpl.
+  apply dd_steps_from_sel; assumption.
+Qed.
+
+(* replicated streams, at every crash point of every legal deduplicating history: what the
+   filter chain selects contains only original samples, and a sample of every original series *)
+Lemma dedup_safe G init hist k hide :
+  NoDup (map fst init) -> legal_dd (init_state G init) hist = true ->
+  let st := fold_left apply_hop (firstn k hist) (init_state G init) in
+  let sel := sg_select st hide in
+  (forall o ss s, In (o, ss) init -> In s ss ->
+     exists id b s', In id sel /\ find st id = Some b /\ In s' (m_samples b) /\ series_of s' = series_of s)
+  /\ (forall id b s, In id sel -> find st id = Some b -> In s (m_samples b) ->
+     exists o ss, In (o, ss) init /\ In s ss).
+Proof.
+  intros Hnd Hl st sel.
+  pose proof (inv_dd_prefix init hist _ k (inv_dd_of_inv init _ (inv_init G init Hnd)) Hl) as Hi. fold st in Hi.
+  pose proof (dd_by_filter init st hide Hi) as Hs. fold sel in Hs.
+  unfold dd_ok in Hs. apply andb_true_iff in Hs as [Hs1 Hs2]. rewrite forallb_forall in Hs1, Hs2. split.
+  - intros o ss s Hin Hss. specialize (Hs1 _ Hin). simpl in Hs1. rewrite forallb_forall in Hs1.
+    specialize (Hs1 _ Hss). apply existsb_exists in Hs1 as [id [Hid Hm]].
+    destruct (find st id) as [b|] eqn:Hf; [|discriminate].
+    apply existsb_exists in Hm as [s' [Hs' E]]. apply N.eqb_eq in E.
+    exists id, b, s'. auto.
+  - intros id b s Hid Hf Hsb. specialize (Hs2 _ Hid). rewrite Hf in Hs2. rewrite forallb_forall in Hs2.
+    specialize (Hs2 _ Hsb). apply existsb_exists in Hs2 as [[o ss] [Hin Hm]]. exists o, ss. split; [exact Hin|].
+    apply memS_In. exact Hm.
 Qed.
